@@ -113,7 +113,7 @@ def run(tier):
         got = []
         try:
             gen = pf.get_cluster_chain(start)
-            for _ in range(len(fat) + 1):
+            for _ in range(len(fat) + 4):
                 got.append(next(gen))
             impl = "hang " + natlist(got[:8])
         except StopIteration:
